@@ -160,7 +160,14 @@ func CallGoMethodFunction(env *Zlisp, name string, args []Sexp) (Sexp, error) {
 			default:
 				// go through the type registry
 				found := false
-				for hashName, factory := range GoStructRegistry.Registry {
+				// scan in registration order: a Go type registered under
+				// several names is reported under the first of them,
+				// not under whichever a map iteration meets first.
+				for _, hashName := range ListRegisteredTypes {
+					factory, isReg := GoStructRegistry.Registry[hashName]
+					if !isReg {
+						continue
+					}
 					st, err := factory.Factory(env, nil)
 					if err != nil {
 						return SexpNull, fmt.Errorf("MakeHash '%s' problem on Factory call: %s",
